@@ -241,6 +241,11 @@ pub struct Health {
     pub reduce_only_collateral: bool,
     /// value of positions holding < 1 share on the relevant side (ignored by the program)
     pub ignored: Q,
+    /// debts the program ignores (< 1 liability share) although they are worth >= 1 native unit (possible only
+    /// when the liability share value is > 1): a lower bound of their weighted value, and the part of `ignored`
+    /// that stems from those same debts
+    pub strict_debt_lo: Q,
+    pub strict_debt_in_ignored: Q,
 }
 impl Health {
     pub fn defined(&self) -> bool {
@@ -323,6 +328,8 @@ pub fn health_with_kind(vm: &Vm, acct: &MarginfiAccount, req: Req, now: i64, for
         stale_collateral: false,
         reduce_only_collateral: false,
         ignored: q_zero(),
+        strict_debt_lo: q_zero(),
+        strict_debt_in_ignored: q_zero(),
     };
     let mut banks: Vec<(Pubkey, Bank, i128, i128)> = vec![];
     for b in acct.lending_account.balances.iter() {
@@ -432,6 +439,15 @@ pub fn health_with_kind(vm: &Vm, acct: &MarginfiAccount, req: Req, now: i64, for
         let av = q_bits(*a_bits) * q_w(bank.asset_share_value);
         let lv = q_bits(*l_bits) * q_w(bank.liability_share_value);
         let px = q_max(ov.spot.clone(), ov.ema.clone()) * q_ratio(105, 100);
+        if lv >= q_one() {
+            // the statement counts this debt (it is not "less than one native unit")
+            if let Some(p) = ov.high(kind) {
+                if p.lo.is_positive() {
+                    h.strict_debt_lo += &lv * bank_weight(bank, req, true) * &p.lo / &scale;
+                }
+            }
+            h.strict_debt_in_ignored += &lv * &px * q_int(2) / &scale;
+        }
         h.ignored += (av + lv) * px * q_int(2) / &scale;
     }
     h
